@@ -146,6 +146,26 @@ CHECKS['C19'] = dict(
               'engine, which has no string theory); static scan of regular-expression texts',
     note='bounded: strings of length <= 4/5 + trailer over 8 characters, dictionaries of <= 2/3 entries; nothing is proved for '
          'longer inputs; Valid() is a hand transcription of the statement')
+CHECKS['C04'] = dict(
+    text='The browser side of the statement, per function, for all pending tables, update batches, caches and scheduler states: '
+         '_enqueue_callback is proved to implement the precedence table exactly (Added always; Removed unless an Added is '
+         'pending; Updated only into an empty slot; every other key untouched). async_update_records is proved with four loop '
+         'invariants: after the batch, Added is pending for (instance, type) iff it already was or some update is a NEW pointer '
+         '(previous copy None) whose owner name has that browsed type, Removed is pending iff no Added is and it already was or '
+         'some update is an expired pointer with a previous copy; nothing is dropped from the table; no callback is delivered '
+         'from here (fire log unchanged); the scheduler is told reschedule exactly for new/refreshed pointers and cancel exactly '
+         'for withdrawn ones (call-site obligations) and keeps its C10 invariant. async_update_records_complete fires every '
+         'pending entry exactly once (one event per key, with the table\'s value) and empties the table. A step lemma composes '
+         'these with the C06/C05 contracts for one identity: "reported live == pointer cached" is preserved by one datagram or '
+         'purge report, an Added only arrives when not live and a Removed only when live (alternation). That callbacks run only '
+         'after the cache holds the datagram\'s records is the C06 ordering obligation (async_updates_complete after both cache '
+         'mutations).',
+    design_ref='DESIGN.md section 4 C04',
+    note='T7 handlers do not touch the pending table; cached_possible_types is an uninterpreted pure function; enum members modelled by '
+         'their values; Updated events only bounded; the step lemma restates the C06/C05 postconditions as hypotheses (per '
+         'identity, one spelling per datagram - the statement\'s own restrictions); initial replay (_async_update_matching_records) '
+         'and the purge report (_async_cache_cleanup) are C06/C05 scope and not re-proved here; the threaded ServiceBrowser '
+         'hand-off is outside the family')
 NOT_APPLICABLE = {
     'C07': 'end-to-end liveness over several hosts and lossy delivery: no per-function contract can express it '
            '(DESIGN.md section 6)',
